@@ -17,7 +17,7 @@ import (
 func init() {
 	register("C16", PropCheck{
 		Title:      "The assembler emits exactly the instructions that were written",
-		Explain:    "Three clauses with structural content: (R1) no string that the assembler writes as a symbol, selector or label (argument of the symbol writer, or of the batch menu processor) derives from a numeric capture of the grammar (Arg.Size / Arg.Flag) through an integer-to-string conversion - such re-rendering drops leading zeros and trailing letters; (R2) batch expansion equals the documentation: from MenuProcessor.ToLines the per-batch-code pair (instruction before HALT with its argument roles, instruction after HALT with its target and argument roles) is extracted and compared with the expansion table of doc/texinfo/instructions.texi, exactly two instruction buffers exist (before/after), every batch line contributes one instruction to each in source order, and the result is before + HALT + after; (R3) the opcode written for a source line is the OpcodeIndex entry of that line's mnemonic, written once per line; (R4) the integer encoder never right-trims the big-endian buffer (shared with C14 R4); (R5) numbers written are read as numbers: the lexer's constant rule table is read from the initialiser's SSA, every pattern is parsed with regexp/syntax, exactly one token class can begin with a decimal digit and the grammar's integer captures (Arg.Size, Arg.Flag) are bound to that class (added after seeded change C16-C); (R6) each source line is assembled in a buffer allocated for it - the buffer handed to the opcode writer is a bytes.NewBuffer result or local of the line emitter (or, for a helper, of every caller), never pooled or package-level - and vm.NewLine appends each string argument itself, not a slice or derivative (added after seeded changes C16-E and C16-F).",
+		Explain:    "Three clauses with structural content: (R1) no string that the assembler writes as a symbol, selector or label (argument of the symbol writer, or of the batch menu processor) derives from a numeric capture of the grammar (Arg.Size / Arg.Flag) through an integer-to-string conversion - such re-rendering drops leading zeros and trailing letters; (R2) batch expansion equals the documentation: from MenuProcessor.ToLines the per-batch-code pair (instruction before HALT with its argument roles, instruction after HALT with its target and argument roles) is extracted and compared with the expansion table of doc/texinfo/instructions.texi, exactly two instruction buffers exist (before/after), every batch line contributes one instruction to each in source order, and the result is before + HALT + after; (R3) the opcode written for a source line is the OpcodeIndex entry of that line's mnemonic, written once per line; (R4) the integer encoder never right-trims the big-endian buffer (shared with C14 R4); (R5) numbers written are read as numbers: the lexer's constant rule table is read from the initialiser's SSA, every pattern is parsed with regexp/syntax, exactly one token class can begin with a decimal digit and the grammar's integer captures (Arg.Size, Arg.Flag) are bound to that class (added after seeded change C16-C); (R6) each source line is assembled in a buffer allocated for it - the buffer handed to the opcode writer is a bytes.NewBuffer result or local of the line emitter (or, for a helper, of every caller), never pooled or package-level - and vm.NewLine appends each string argument itself, not a slice or derivative (added after seeded changes C16-E and C16-F); (R7) the names the VM itself gives a meaning - string constants of package vm compared with a symbol or placed in the arguments of an instruction it builds: the navigation targets, the wildcard and the catch node - are each read by the lexer (rules in table order, first match wins) as one token of the class the grammar's symbol captures are bound to: a table agreement between the assembler's token class and the VM's reserved names, not a judgement of the grammar (added after seeded change C16-H).",
 		NotDecided: "per-program translation fidelity in general (needs an independent parse of the source); the participle grammar itself; comments and blank lines.",
 		Run:        runC16,
 	})
@@ -29,6 +29,7 @@ func runC16(w *core.World, r *core.Report) {
 	r.Rule("R3", "opcode written = OpcodeIndex[mnemonic of the line], once per line")
 	r.Rule("R4", "integer encoder never right-trims the big-endian buffer")
 	r.Rule("R6", "each source line is assembled in a buffer allocated for it (no pooled or package-level buffer); vm.NewLine appends its string arguments unmodified")
+	r.Rule("R7", "lexer: every name the VM gives a meaning (navigation targets, wildcard, catch node) is read as one symbol token")
 	r.Rule("R5", "lexer: exactly one token class can start with a decimal digit, and the grammar's integer captures are bound to it")
 
 	// ---- R1 -----------------------------------------------------------------------------------
@@ -140,6 +141,7 @@ func runC16(w *core.World, r *core.Report) {
 	// ---- R5 -----------------------------------------------------------------------------------
 	checkNumericTokenClass(w, r, "R5")
 	// ---- R6 -----------------------------------------------------------------------------------
+	checkReservedNamesAreOneToken(w, r, "R7")
 	checkFreshLineBuffer(w, r, "R6")
 	checkNewLineArgsUnmodified(w, r, "R6")
 }
@@ -396,41 +398,7 @@ func checkNumericTokenClass(w *core.World, r *core.Report, rule string) {
 		r.Undecided(rule, "assembler lexer rules", token.NoPos, "package initialiser of asm not found")
 		return
 	}
-	type ruleT struct{ name, pat string }
-	rules := map[int64]*ruleT{}
-	for _, in := range allInstrs(initFn) {
-		st, ok := in.(*ssa.Store)
-		if !ok {
-			continue
-		}
-		sv, isStr := core.ConstString(st.Val)
-		if !isStr {
-			continue
-		}
-		fa, ok := st.Addr.(*ssa.FieldAddr)
-		if !ok {
-			continue
-		}
-		ia, ok := fa.X.(*ssa.IndexAddr)
-		if !ok {
-			continue
-		}
-		if !strings.Contains(ia.X.Type().String(), "SimpleRule") {
-			continue
-		}
-		idx, ok := core.ConstInt(ia.Index)
-		if !ok {
-			continue
-		}
-		if rules[idx] == nil {
-			rules[idx] = &ruleT{}
-		}
-		if fa.Field == 0 {
-			rules[idx].name = sv
-		} else {
-			rules[idx].pat = sv
-		}
-	}
+	rules := lexerRuleTable(initFn)
 	if len(rules) == 0 {
 		r.Undecided(rule, "assembler lexer rules", initFn.Pos(), "no constant lexer rule table found in the initialiser")
 		return
@@ -469,6 +437,184 @@ func checkNumericTokenClass(w *core.World, r *core.Report, rule string) {
 	r.Check(len(digitClasses) == 1 && bound && len(capt) > 0, rule, "assembler lexer: one numeric token class", initFn.Pos(),
 		fmt.Sprintf("only %v can start with a digit; integer captures %v are bound to it", digitClasses, capt),
 		fmt.Sprintf("token classes that can start with a decimal digit: %v (exactly one expected, bound to the integer captures %v): how a number such as 04 is read depends on rule order, so the instruction emitted is not the one written", digitClasses, capt))
+}
+
+type lexRule struct{ name, pat string }
+
+// lexerRuleTable reads the constant lexer.SimpleRule table from the initialiser, in table order.
+func lexerRuleTable(initFn *ssa.Function) []*lexRule {
+	rules := map[int64]*lexRule{}
+	for _, in := range allInstrs(initFn) {
+		st, ok := in.(*ssa.Store)
+		if !ok {
+			continue
+		}
+		sv, isStr := core.ConstString(st.Val)
+		if !isStr {
+			continue
+		}
+		fa, ok := st.Addr.(*ssa.FieldAddr)
+		if !ok {
+			continue
+		}
+		ia, ok := fa.X.(*ssa.IndexAddr)
+		if !ok {
+			continue
+		}
+		if !strings.Contains(ia.X.Type().String(), "SimpleRule") {
+			continue
+		}
+		idx, ok := core.ConstInt(ia.Index)
+		if !ok {
+			continue
+		}
+		if rules[idx] == nil {
+			rules[idx] = &lexRule{}
+		}
+		if fa.Field == 0 {
+			rules[idx].name = sv
+		} else {
+			rules[idx].pat = sv
+		}
+	}
+	var keys []int64
+	for k := range rules {
+		keys = append(keys, k)
+	}
+	sort.Slice(keys, func(i, j int) bool { return keys[i] < keys[j] })
+	var out []*lexRule
+	for _, k := range keys {
+		out = append(out, rules[k])
+	}
+	return out
+}
+
+// checkReservedNamesAreOneToken (C16 R7): the names the VM itself gives a meaning - the targets
+// of its navigation switch ("_", "<", ">", "^", "."), the wildcard selector and the catch node it
+// moves to - must be writable in assembly: each is read by the lexer as ONE token of the class the
+// grammar's symbol captures are bound to. The names are collected from package vm (string
+// constants compared with a symbol, or placed in the argument list of an instruction the VM
+// builds); the lexer's rule table is the one R5 reads; matching follows the lexer (rules tried in
+// table order, first match at the position wins, Go leftmost-first alternation inside a rule).
+func checkReservedNamesAreOneToken(w *core.World, r *core.Report, rule string) {
+	var initFn *ssa.Function
+	if sp := w.SSA["asm"]; sp != nil {
+		initFn = sp.Func("init")
+	}
+	if initFn == nil {
+		r.Undecided(rule, "assembler lexer rules", token.NoPos, "package initialiser of asm not found")
+		return
+	}
+	rules := lexerRuleTable(initFn)
+	if len(rules) == 0 {
+		r.Undecided(rule, "assembler lexer rules", initFn.Pos(), "no constant lexer rule table found in the initialiser")
+		return
+	}
+	// the token class of symbol captures
+	symClass := ""
+	for _, fld := range structFields(w, "asm", "Arg") {
+		pt, ok := fld.Type().(*types.Pointer)
+		if !ok {
+			continue
+		}
+		if bt, ok := pt.Elem().Underlying().(*types.Basic); !ok || bt.Kind() != types.String {
+			continue
+		}
+		tag := structTag(w, "asm", "Arg", fld.Name())
+		for _, rl := range rules {
+			if strings.Contains(tag, "@"+rl.name) {
+				if symClass != "" && symClass != rl.name {
+					r.Undecided(rule, "assembler grammar: symbol captures", initFn.Pos(), "string captures are bound to more than one token class")
+					return
+				}
+				symClass = rl.name
+			}
+		}
+	}
+	if symClass == "" {
+		r.Undecided(rule, "assembler grammar: symbol captures", initFn.Pos(), "no string capture bound to a lexer class")
+		return
+	}
+	// reserved names of the VM
+	names := map[string]token.Pos{}
+	plausible := func(sv string) bool {
+		if sv == "" || len(sv) > 24 {
+			return false
+		}
+		// ordinary names (letters first) are the identifier rule's business; numbers are R5's
+		if c := sv[0]; (c >= '0' && c <= '9') || (c >= 'a' && c <= 'z') || (c >= 'A' && c <= 'Z') {
+			return false
+		}
+		for _, c := range sv {
+			if c <= ' ' || c > '~' || c == '%' || c == ':' || c == '/' || c == ',' || c == '=' {
+				return false
+			}
+		}
+		return true
+	}
+	for _, fn := range w.FuncsIn("vm") {
+		for _, in := range allInstrs(fn) {
+			switch t := in.(type) {
+			case *ssa.BinOp:
+				if t.Op != token.EQL && t.Op != token.NEQ {
+					continue
+				}
+				for _, op := range []ssa.Value{t.X, t.Y} {
+					if sv, ok := core.ConstString(op); ok && plausible(sv) {
+						if bt, ok := op.Type().Underlying().(*types.Basic); ok && bt.Kind() == types.String {
+							names[sv] = t.Pos()
+						}
+					}
+				}
+			case *ssa.Store:
+				// element of a []string literal handed to the instruction builder
+				sv, ok := core.ConstString(t.Val)
+				if !ok || !plausible(sv) {
+					continue
+				}
+				ia, ok := t.Addr.(*ssa.IndexAddr)
+				if !ok {
+					continue
+				}
+				if pt, ok := ia.X.Type().Underlying().(*types.Pointer); ok {
+					if at, ok := pt.Elem().Underlying().(*types.Array); ok {
+						if bt, ok := at.Elem().Underlying().(*types.Basic); ok && bt.Kind() == types.String {
+							names[sv] = t.Pos()
+						}
+					}
+				}
+			}
+		}
+	}
+	var sorted []string
+	for n := range names {
+		sorted = append(sorted, n)
+	}
+	sort.Strings(sorted)
+	var bad []string
+	var badPos token.Pos
+	for _, n := range sorted {
+		got, cls := "", ""
+		for _, rl := range rules {
+			re, err := regexp.Compile("^(?:" + rl.pat + ")")
+			if err != nil {
+				r.Undecided(rule, "assembler lexer rule "+rl.name, initFn.Pos(), "pattern does not compile: "+err.Error())
+				return
+			}
+			if m := re.FindString(n); m != "" {
+				got, cls = m, rl.name
+				break
+			}
+		}
+		if cls != symClass || got != n {
+			bad = append(bad, fmt.Sprintf("%q is read as %s %q", n, cls, got))
+			badPos = names[n]
+		}
+	}
+	r.Floor(rule, "names the VM gives a meaning", len(sorted), 5)
+	r.Check(len(bad) == 0, rule, "assembler lexer: every name the VM gives a meaning is one symbol token", badPos,
+		fmt.Sprintf("%v each lexed as one %s token", sorted, symClass),
+		"a name the VM itself uses cannot be written in assembly as one symbol (it is split or read as another token class, so the instruction emitted is not the one written): "+strings.Join(bad, "; "))
 }
 
 // canStartWithDigit: the regular expression can match a string whose first byte is '0'..'9'.
